@@ -11,7 +11,7 @@ from sa.report import Ctx
 
 from .common import generic_sweeps
 
-from .sat_common import SatRoles, _enclosing_block, check_add_sites, check_assumption_assertion, check_analysis, check_assign, check_backtrack, check_bcp, check_input_copy, check_main_loop, check_heap_flags, check_variable_universe
+from .sat_common import SatRoles, _enclosing_block, check_add_sites, check_binary_add, check_assumption_assertion, check_analysis, check_assign, check_backtrack, check_bcp, check_input_copy, check_main_loop, check_heap_flags, check_variable_universe
 
 EXPLANATION = (
     "Decides structural necessary conditions of 'every returned assignment satisfies every clause / agrees with "
@@ -31,6 +31,7 @@ def run(ctx: Ctx):
     roles = SatRoles(ctx)
     f = roles.f
     ctx.step(check_add_sites, roles, "C01-O3")
+    ctx.step(check_binary_add, "C01-O3")
     ctx.step(check_backtrack, roles, "C01-O2")
     ctx.step(check_blocking, roles)
     ctx.step(check_unassign_heap, roles)
@@ -362,7 +363,19 @@ def _v_empty_universe_before_assumptions(tree):
     g.body.insert(i_as[0], st_)
 
 
+def _v_binary_add_skips_same_variable(tree):
+    g = M.find_func(tree, "BinaryImplications.add")
+    g.body.insert(0, M.stmts("if lit_var(lit_a) == lit_var(lit_b):\n    return")[0])
+
+
+def _t_binary_add_skips_tautology(tree):
+    g = M.find_func(tree, "BinaryImplications.add")
+    g.body.insert(0, M.stmts("if lit_a == -lit_b:\n    return")[0])
+
+
 VARIANTS = [
+    M.Variant("BinaryImplications.add drops every pair over one variable, [x, x] included (seed C01-O)", SAT, _v_binary_add_skips_same_variable, "C01-O3"),
+    M.Variant("twin: BinaryImplications.add drops the tautology (x, -x) only", SAT, _t_binary_add_skips_tautology, None),
     M.Variant("the empty-universe shortcut is taken before the assumed variables are counted (seed C01-M)", SAT, _v_empty_universe_before_assumptions, "C01-O8"),
     M.Variant("assumption list collapsed per variable before assertion (seed C01-B)", SAT, _v_assumptions_collapsed, "C01-O6"),
 
